@@ -364,7 +364,7 @@ def _streaming_samples(cfg, labels):
 
 
 KEYS = {"BottomUp": ["instances", "confidence_maps", "part_affinity_fields", "image"], "Centroid": ["centroids", "centroids_confidence_maps", "image"],
-        "SingleInstance": ["instances", "confidence_maps", "image"], "CenteredInstance": ["instance", "centroid", "confidence_maps", "instance_image"]}
+        "SingleInstance": ["instances", "confidence_maps", "image"], "CenteredInstance": ["instance", "centroid", "confidence_maps", "instance_image", "instance_bbox"]}
 
 
 def _install_fw():
@@ -414,6 +414,7 @@ def _run_framework(cfg):
             try:
                 mem = _build(cfg, _make_labels(True, (True if cls == "SingleInstance" else "one-frame" if cls == "BottomUp" else False), not cfg.get("user_only", True), cfg.get("two_videos", False)), False)
                 mem_s = [mem[i] for i in range(len(mem))]
+                mem_s = [mem[i] for i in range(len(mem))]  # the in-memory samples compared are those of a SECOND pass over the indices (nothing written into the cache by a fetch may change the next one)
                 npz = _build(cfg, _make_labels(True, (True if cls == "SingleInstance" else "one-frame" if cls == "BottomUp" else False), not cfg.get("user_only", True), cfg.get("two_videos", False)), True)
                 npz_s = [npz[i] for i in range(len(npz))]
                 st_s = _streaming_samples(cfg, _make_labels(True, (True if cls == "SingleInstance" else "one-frame" if cls == "BottomUp" else False), not cfg.get("user_only", True), cfg.get("two_videos", False)))
@@ -502,6 +503,7 @@ def replay(cfg, inputs, obligation):
     try:
         mem = _build(cfg, _make_labels(env, (True if cfg["cls"] == "SingleInstance" else "one-frame" if cfg["cls"] == "BottomUp" else False), not cfg.get("user_only", True), cfg.get("two_videos", False)), False)
         mem_s = [mem[i] for i in range(len(mem))]
+        mem_s = [mem[i] for i in range(len(mem))]  # second pass, as in the check
         npz = _build(cfg, _make_labels(env, (True if cfg["cls"] == "SingleInstance" else "one-frame" if cfg["cls"] == "BottomUp" else False), not cfg.get("user_only", True), cfg.get("two_videos", False)), True)
         npz_s = [npz[i] for i in range(len(npz))]
         st_s = _streaming_samples(cfg, _make_labels(env, (True if cfg["cls"] == "SingleInstance" else "one-frame" if cfg["cls"] == "BottomUp" else False), not cfg.get("user_only", True), cfg.get("two_videos", False)))
